@@ -177,7 +177,9 @@ func (e *Explore) Run(ctx context.Context, con int) error {
 							time.Sleep(e.retryInterval)
 							e.targetsLock.Lock()
 							defer e.targetsLock.Unlock()
-							if e.targets[hash] != nil {
+							// retry only while this very target is still listed: a target that disappeared and
+							// was discovered again is a new entry with its own exploring
+							if e.targets[hash] == tar {
 								e.needExplore <- tar
 							}
 						}()
